@@ -36,10 +36,8 @@ impl<'a> Lexer<'a> {
         let mut char_data_vec: Option<Vec<String>> = None;
         let mut char_data: Option<String> = None;
 
-        for i in 0..4_096 {
-            // max chars in a single lex, helps with issues in the lexer...
-            assert!(i < 4095); // keeps the bounds of the loop defined (nothing lasts forever)
-
+        // every pass either consumes a char, moves to a state that will, or returns a Token
+        loop {
             // This is to get around mutability rules such that we can peek at the iter without moving next...
             let ch: Option<char> = self.peek();
 
@@ -258,8 +256,6 @@ impl<'a> Lexer<'a> {
                 }
             }
         }
-
-        unreachable!("The above match statement should have found a terminal state");
     }
 
     fn push_to_str(collect: &mut Option<String>, ch: char) -> LexerResult<()> {
